@@ -856,3 +856,81 @@ def r13c_rep_preserved(ctx):
 
 RULES = {"R08": r08_tick_typestate, "R13ab": r13ab_rep_structure,
          "R13c": r13c_rep_preserved}
+
+
+# ------------------------------------------------------------------- R46
+SEARCH_ORDER = ["second_of_minute", "minute_of_hour", "hour_of_day",
+                "day_of_week", "day_of_month", "day_of_year", "week_of_year",
+                "month_of_year"]
+SEARCH_RANK = {"second_of_minute": 0, "minute_of_hour": 1, "hour_of_day": 2,
+               "day_of_week": 3, "day_of_month": 3, "day_of_year": 3,
+               "week_of_year": 4, "month_of_year": 5}
+
+
+def r46_search_postcondition(ctx):
+    """add_truncated: each requested field is reached by a search loop
+    `while new._F != F: new._F += 1; new._tick_over()`, whose exit is what
+    guarantees `result._F == F`; a field written outside its own loop (a
+    direct jump followed by the normaliser) can be moved again by the carry,
+    and a lower unit searched after a higher one undoes the higher match."""
+    rep = ctx.rep
+    rule = "R46.search-postcondition"
+    tp = ctx.model.cls("TimePoint")
+    f = tp.methods.get("add_truncated")
+    if f is None:
+        raise AnalysisError("TimePoint.add_truncated not found")
+    rep.need_anchor(rule, "search loops")
+    params = set(f.call_params)
+    loops = {}      # field -> While
+    order = []
+    for n in walk_no_nested(f.node):
+        if isinstance(n, ast.While) and isinstance(n.test, ast.Compare) and \
+                len(n.test.ops) == 1 and isinstance(n.test.ops[0], ast.NotEq):
+            a, b = n.test.left, n.test.comparators[0]
+            for x, y in ((a, b), (b, a)):
+                if isinstance(x, ast.Attribute) and isinstance(y, ast.Name) \
+                        and x.attr == "_" + y.id and y.id in params:
+                    loops[y.id] = n
+                    order.append((n.lineno, y.id))
+                    rep.anchor(rule, "search loops")
+    # (a) writes to a searched field only inside its own loop
+    for n in walk_no_nested(f.node):
+        tg = []
+        if isinstance(n, ast.Assign):
+            tg = n.targets
+        elif isinstance(n, ast.AugAssign):
+            tg = [n.target]
+        for t in tg:
+            if isinstance(t, ast.Attribute) and t.attr[1:] in SEARCH_RANK \
+                    and t.attr[1:] in params:
+                fld = t.attr[1:]
+                lp = loops.get(fld)
+                inside = lp is not None and any(
+                    n is x for st in lp.body for x in ast.walk(st))
+                rep.check(
+                    inside, rule, ctx.fkey(f, n, "in-own-loop"), f.loc(n),
+                    "%s is stepped inside `while new._%s != %s`" % (
+                        t.attr, fld, fld),
+                    "add_truncated writes %s outside a `while new.%s != %s` "
+                    "search loop: nothing guarantees that the field still "
+                    "equals the requested value after the normaliser ran "
+                    "(day 366 of a common year is carried to day 1 of the "
+                    "next year), so the result is not the next *matching* "
+                    "date-time" % (U(t), t.attr, fld), ("C20",))
+    # (b) ascending unit order
+    order.sort()
+    ranks = [SEARCH_RANK[x] for _, x in order if x in SEARCH_RANK]
+    rep.check(ranks == sorted(ranks) and bool(ranks), rule,
+              ctx.fkey(f, None, "unit-order"), f.loc(),
+              "search loops run from the smallest unit upwards (%s)" %
+              [x for _, x in order],
+              "add_truncated searches %s: a lower unit searched after a "
+              "higher one carries into it and undoes its match" %
+              [x for _, x in order], ("C20",))
+    missing = [x for x in SEARCH_RANK if x in params and x not in loops]
+    rep.check(not missing, rule, ctx.fkey(f, None, "all-fields"), f.loc(),
+              "every requested field has its search loop",
+              "no search loop for %s" % missing, ("C20",))
+
+
+RULES["R46"] = r46_search_postcondition
